@@ -52,6 +52,10 @@ from ..selftest import Mutant  # noqa: E402
 OPS, GMP, REAL, GU = E.OPS, E.GMP, E.REAL, E.GMPUTILS
 
 MUTANTS = [
+    Mutant('sub-is-add-of-a-rounded-negation', 'fpy2/ops.py', "    xr = _cvt_to_real(x)\n    yr = _cvt_to_real(y)\n    for engine in ENGINES:\n        r = engine.sub(xr, yr, ctx)\n        if r is not None:\n            r = _zero_sum(r, ctx, (_is_negative(xr), not _is_negative(yr)))\n            return _normalize(r, ctx, (xr, yr))\n\n    raise NotImplementedError(f'sub() not implemented for ctx={ctx}')",
+           "    return add(x, neg(y, ctx), ctx)", 'C02.S1', 'seeded change C02d: the negation is rounded before the sum is'),
+    Mutant('fdim-is-a-rounded-sub-then-max', 'fpy2/ops.py', "    xr = _cvt_to_real(x)\n    yr = _cvt_to_real(y)\n    for engine in ENGINES:\n        r = engine.fdim(xr, yr, ctx)\n        if r is not None:\n            return _normalize(r, ctx, (xr, yr))\n\n    raise NotImplementedError(f'fdim() not implemented for ctx={ctx}')",
+           "    return fmax(sub(x, y, ctx), 0, ctx)", 'C02.S1'),
     Mutant('zero-times-fraction-loses-its-sign', REAL, "        elif (isinstance(x, Float) and x.is_zero()) or (isinstance(y, Float) and y.is_zero()):\n            # 0 * y = 0; the separate case keeps the sign of a zero operand,\n            # which the rational product below cannot carry\n            s = _signbit(x) != _signbit(y)\n            return Float(s=s, c=0, ctx=REAL)\n", "", 'C02.T2',
            'finding F52 before its repair: mul(1/3, -0.0) is +0'),
     Mutant('zero-product-takes-sign-of-x', REAL, "            s = _signbit(x) != _signbit(y)\n            return Float(s=s, c=0, ctx=REAL)\n        else:\n            # both are finite\n            match x, y:\n                case Float(), Float():\n                    r = x.as_real() * y.as_real()",
